@@ -234,7 +234,9 @@ def check_prune(case):
         libcall(m.prune, Xt, Yt, Xv, Yv, case["n_iter"])
     except lib.LibError as le:
         last = log["fits"][-1] if log["fits"] else None
-        k1 = (le.clause.startswith("exception:IndexError@models.supervised.predict") and last is not None and len(set(last["Y"])) < 2 and len(last["Y"]) >= 1)
+        # K1: the fit on a single-class retained set leaves an empty conquest order and the following predict indexes into it
+        # (whichever private helper of models.supervised does the indexing)
+        k1 = (le.clause.startswith("exception:IndexError@models.supervised") and last is not None and len(set(last["Y"])) < 2 and len(last["Y"]) >= 1)
         if k1 and is_known("K1"):
             known = ["K1"]
         else:
